@@ -10,3 +10,9 @@ F = facts.load()
 ids = sorted(fid for fid, f in F.fns.items() if f["kind"] in ("Fn", "AssocFn") and f.get("crate") in build.CRATES and not fid.startswith("<"))
 open(os.path.join(HERE, "known_fns.txt"), "w").write("\n".join(ids) + "\n")
 print(len(ids), "functions")
+# number of closures (incl. coroutine bodies) under every named function, trait impl methods included: a function whose family of
+# closures changed is one whose combinator calls are written out before the rules look at it (lib/inline.py)
+from lib import inline
+cnt = inline.closure_counts(F)
+open(os.path.join(HERE, "known_closures.txt"), "w").write("".join("%s\t%d\n" % kv for kv in sorted(cnt.items())))
+print(len(cnt), "functions with closures")
